@@ -141,6 +141,10 @@ fn send_op(s: &mut Server, op: &Op, version: &mut i64) -> Option<i64> {
 enum St {
     Forgotten,
     Text(String),
+    /// More acceptable states than the model is willing to track (long histories of
+    /// inapplicable edits on closed documents): the document is not judged until a full
+    /// replacement or a didOpen pins its text again.
+    Any,
 }
 
 fn clamp_candidates(doc: &Doc, p: (u32, u32)) -> Vec<usize> {
@@ -175,6 +179,16 @@ fn apply_to_states(states: &BTreeSet<St>, ch: &Change) -> BTreeSet<St> {
         match st {
             St::Forgotten => {
                 out.insert(St::Forgotten);
+            }
+            St::Any => {
+                match ch.range {
+                    None => {
+                        out.insert(St::Text(ch.text.replace('\r', "")));
+                    }
+                    Some(_) => {
+                        out.insert(St::Any);
+                    }
+                }
             }
             St::Text(t) => {
                 let doc = Doc::new(t.clone());
@@ -216,10 +230,11 @@ fn apply_to_states(states: &BTreeSet<St>, ch: &Change) -> BTreeSet<St> {
             }
         }
     }
-    // bound the set
-    while out.len() > 64 {
-        let last = out.iter().next_back().cloned().unwrap();
-        out.remove(&last);
+    // Bound the set soundly: dropping members would turn acceptable behaviour into alarms, so
+    // an overfull set collapses to "not judged".
+    if out.len() > 64 {
+        out.clear();
+        out.insert(St::Any);
     }
     out
 }
@@ -706,6 +721,10 @@ fn judge(rep: &mut Report, prop: &str, env: &Env, ops: &[Op], res: &RunResult, s
             continue;
         }
         let states = model.get(uri);
+        if states.contains(&St::Any) {
+            rep.count("documents_not_judged(more than 64 acceptable states)", 1);
+            continue;
+        }
         let matches = match obs {
             Err(_) => states.contains(&St::Forgotten),
             Ok(dump) => states.iter().any(|s| matches!(s, St::Text(t) if synmon::dump_matches_text(dump, t).is_ok())),
@@ -724,7 +743,7 @@ fn judge(rep: &mut Report, prop: &str, env: &Env, ops: &[Op], res: &RunResult, s
                 }
                 Err(e) => format!("server answers error: {e}"),
             };
-            let want: Vec<String> = states.iter().map(|s| match s { St::Forgotten => "<forgotten>".into(), St::Text(t) => format!("{:?}", truncate_str(t, 120)) }).take(4).collect();
+            let want: Vec<String> = states.iter().map(|s| match s { St::Forgotten => "<forgotten>".into(), St::Text(t) => format!("{:?}", truncate_str(t, 120)), St::Any => "<any>".into() }).take(4).collect();
             if only_valid {
                 rep.violate(
                     format!("doc-desync:{}:{}", uri_class(uri), mode),
@@ -847,6 +866,7 @@ fn run_c13bb(args: &Args) -> Report {
                 ok = false;
                 break;
             };
+            s.forget();
             let want = client.server_view();
             match resp.get("result").and_then(|r| r.as_str()) {
                 Some(dump) => {
